@@ -21,3 +21,5 @@ def run(ctx):
         small3.run(ctx, found=bool(ctx.violations))
         from .. import gsmgeom       # WAV / WAVEX GSM 6.10: frames at re-open (lean/SfModel/GsmGeom.lean, SfProps/C04GsmPad.lean)
         gsmgeom.run(ctx, "C04")
+        from .. import alac           # CAF/ALAC: packet staging, pakt / kuki chunks, read / seek around the codec core (lean/SfModel/AlacFile.lean)
+        alac.run(ctx, "C04", 96 if q else 960)
